@@ -43,6 +43,8 @@ GRIDS = {
     'K': {'loss_coeff': 1.2, 'axial_positions': ZG},
     'REH': {'corr': 'REH', 'solidity': 0.3, 'axial_positions': ZG},
     'CDD': {'corr': 'CDD', 'solidity': 0.3, 'axial_positions': ZG},
+    # three grids again, the first on the inlet plane of the bundle and the last on its outlet plane
+    'K-ends': {'loss_coeff': 1.2, 'axial_positions': [0.0, 0.5, 1.0]},
     # reader probes only: solidity left to the code's default relation
     'REH-defsol': {'corr': 'REH', 'axial_positions': ZG},
     'CDD-defsol': {'corr': 'CDD', 'axial_positions': ZG},
@@ -103,6 +105,9 @@ def designs(tier):
         add(4, 1.42, 52.0)
         add(2, 1.2, 0.0, wire=False, clr='mid')
         add(3, 1.08, 0.0, wire=False, clr='mid')
+        # bare rods almost touching the duct at a wide pitch: the corner split factor is of the order 1e-2
+        add(3, 1.8, 0.0, wire=False, clr='tight')
+        add(2, 1.6, 0.0, wire=False, clr='tight')
         # a duct far too wide for the bundle (edge pitch-to-diameter ratio ~ 3): outside every range of the
         # Cheng-Todreas correlations - the reader refuses it whenever one of them is involved
         add(2, 1.2, 30.0, clr=2.0)
@@ -118,6 +123,9 @@ def designs(tier):
             add(rings, pd, 0.0, wire=False, clr='mid')
         for clr in ('tight', 'loose'):
             add(rings, 1.2, 0.0, wire=False, clr=clr)
+        for pd in (1.42, 1.6, 1.8):
+            for clr in ('tight', 0.006):
+                add(rings, pd, 0.0, wire=False, clr=clr)
     return out
 
 
@@ -143,6 +151,11 @@ def cases(tier):
                 c.update({'grid': g, 'ff': fam, 'fs': fam, 'mix': fam, 'zoff': 0.6})
                 out.append(c)
                 out.append(dict(c, phantom=True))
+        for fam in ('CTD', 'UCTD'):
+            c = dict(d)
+            c.update({'grid': 'K-ends', 'ff': fam, 'fs': fam, 'mix': fam})
+            out.append(c)
+            out.append(dict(c, zoff=0.6))
     return out
 
 
